@@ -11,7 +11,7 @@ def _engine_hash():
     h = hashlib.sha256()
     d = os.path.dirname(os.path.abspath(__file__))
     for f in sorted(os.listdir(d)):
-        if f.endswith('.py'): h.update(open(os.path.join(d, f), 'rb').read())
+        if f in ('engine.py', 'models.py', 'crate_models.py', 'resolver.py', 'session.py', 'tmpl.py', 'dump.py'): h.update(open(os.path.join(d, f), 'rb').read())
     return h.hexdigest()[:16]
 
 def cache_key(mir_hash, variant, tmpl, hash_order, extra=''):
